@@ -1,10 +1,6 @@
 #!/bin/bash
-# run every claimed check (tier $1, default quick) on the current /repo tree; prints one status line per property
+# run every claimed check (tier $1, default quick) on the current /repo tree, 4 at a time; one status line per property
 tier=${1:-quick}
 cd /verif
-ids=$(python3 -c "import json; print(' '.join(sorted(json.load(open('props.json')).keys())))")
-rc=0
-for id in $ids; do
-  out=$(python3 check.py $id --tier $tier 2>&1 | tail -3); r=$?
-  echo "$id: $(echo "$out" | tail -1)"
-done
+python3 -c "import json; print('\n'.join(sorted(json.load(open('props.json')).keys())))" | \
+  xargs -P 4 -I{} sh -c "python3 check.py {} --tier $tier 2>&1 | grep -E '^(OK|VIOLATION|UNDECIDED|KNOWN)' | head -3 | sed 's/^/{}: /'"
